@@ -48,6 +48,14 @@ class Call(Node):
             t for t in parsed
             if not isinstance(t, string_types) or t not in '(),'
         ]
+        # only the functions meant for stylesheets: a CSS function that shares
+        # its name with another attribute (tokens(), lineno(), fmt(), ...) is
+        # none of them
+        internal = set(dir(Node)) | set(vars(self)) | set(vars(color))
+        internal |= set(['process', 'operate'])
+        if name in internal or name.startswith('_'):
+            return name + ''.join([p for p in parsed])
+
         if hasattr(self, name):
             try:
                 return getattr(self, name)(*args)
